@@ -22,6 +22,10 @@ Oracle (implementation only), after every op and for every open model:
   O8 mxsys._check_sanity() does not raise;
   O9 (a sample in the quick tier, every clean history in the thorough tier) write + read_model:
      every spec'd value is read back equal under every name it was bound to.
+Four defects are known findings (new_pandas onto a scalar cells name, new_pandas twice for one value,
+del model.S of a space holding tracked references, update_pandas onto an object that is already
+referenced); five others found by this check were repaired in /repo and their witnesses are
+regression inputs (corpus/C18/fixed-*.json, no key, must pass).
 A failure is attributed to a known finding only if (a) the oracle recognised the trigger from the
 implementation's own state before the op and (b) the Lean model flags the same op with the same
 trigger predicate; after the first recognised trigger of a history the oracle is silent (the
@@ -46,11 +50,8 @@ REFNAMES = ["x", "y", "z"]
 KEYS = {
     "cells-name": "C18-cells-name",
     "double-spec": "C18-double-spec",
-    "rebind-same": "C18-rebind-same",
-    "sheet-setter": "C18-sheet-setter",
     "del-space": "C18-del-space",
     "update-onto-referenced": "C18-update-onto-referenced",
-    "refmode-false": "C18-new-pandas-refmode",
 }
 
 
@@ -503,23 +504,6 @@ def pre_trigger(w, op):
                 trig.append("cells-name")
             if iom.get_spec_from_value(model, data) is not None:
                 trig.append("double-spec")
-            own = par._impl.own_refs if s != 0 else model._impl.global_refs
-            if name in own and own[name].interface is data:
-                ent = model._impl.refmgr._valid_to_refs.get(id(data))
-                if ent is not None and len(ent) == 1:
-                    trig.append("rebind-same")
-        elif kind == "bind":
-            v = w.val(op[4], m)
-            own = par._impl.own_refs if s != 0 else model._impl.global_refs
-            if (name in own and own[name].interface is v and not isinstance(v, Interface)
-                    and iom.get_spec_from_value(model, v) is not None):
-                ent = model._impl.refmgr._valid_to_refs.get(id(v))
-                if ent is not None and len(ent) == 1:
-                    trig.append("rebind-same")
-        elif kind == "sheet":
-            spec = iom.get_spec_from_value(model, w.val(op[2], m))
-            if spec is not None and op[3] == "-" and len(spec.io.specs) > 1:
-                trig.append("sheet-setter")
         elif kind == "del":
             if s == 0:
                 for (mm, ss), sp in w.spaces.items():
@@ -531,15 +515,6 @@ def pre_trigger(w, op):
                 new = w.val(op[3], m)
                 if id(new) in model._impl.refmgr._valid_to_refs:
                     trig.append("update-onto-referenced")
-        # inheritance only: new_pandas in a space creates its reference with refmode=False (set_attr's
-        # default) and update_value wraps the refmode into a tuple (`*refmode`); a reference derived from
-        # such a reference raises "must not happen" in ReferenceImpl.on_inherit as soon as it has to be
-        # re-derived from a base holding an Interface, in the middle of the update
-        if kind in ("del", "bind", "newpandas", "addbase", "rmbase", "update"):
-            allrefs = w.refs_of(m)
-            if (any(r.is_derived() and r.refmode not in ("auto", "absolute", "relative") for _, _, r in allrefs)
-                    and any(s_ != 0 and isinstance(r.interface, Interface) for s_, _, r in allrefs)):
-                trig.append("refmode-false")
     except Exception:
         pass
     return trig
@@ -609,31 +584,7 @@ def oracle_step(w, op, res, snap, out_fail):
     try:
         mx.core.mxsys._check_sanity()
     except Exception as e:
-        # ModelImpl._check_sanity asserts that EVERY global reference is in _valid_to_refs, although
-        # new_ref/change_ref deliberately do not track Interface values: when that is the situation the
-        # same checks are repeated with that one assertion restricted to non-Interface values
-        iface_global = any(isinstance(r.interface, Interface)
-                           for m in w.open for s_, n_, r in w.refs_of(m) if s_ == 0)
-        if iface_global and sanity_without_global_iface(w):
-            out_fail("mxsys._check_sanity() raises %s for a model-level reference to an Interface "
-                     "(every other assertion holds)" % type(e).__name__, "O8-global-iface")
-        else:
-            out_fail("mxsys._check_sanity() raises %s" % type(e).__name__, "O8")
-
-
-def sanity_without_global_iface(w):
-    try:
-        mx.core.mxsys.iomanager._check_sanity()
-        for m in w.open:
-            impl = w.models[m]._impl
-            for name, r in impl.global_refs.items():
-                if name != "__builtins__" and not isinstance(r.interface, Interface):
-                    assert id(r.interface) in impl.refmgr._valid_to_refs
-            impl.refmgr._check_sanity()
-            impl.spmgr._check_sanity()
-        return True
-    except Exception:
-        return False
+        out_fail("mxsys._check_sanity() raises %s" % type(e).__name__, "O8")
 
 
 def roundtrip(w, out_fail):
@@ -666,13 +617,7 @@ def roundtrip(w, out_fail):
                 except Exception:
                     got = None
                 if not (isinstance(got, pd.DataFrame) and got.equals(v)):
-                    spec = model.get_spec(v)
-                    if isinstance(got, dict) and spec._read_args.get("sheet_name", 0) is None:
-                        # the sheet setter stored sheet_name=None in the read arguments of a spec that was
-                        # created with a sheet name: read_excel(sheet_name=None) returns a dict of all sheets
-                        out_fail("a spec whose sheet was set to None is read back as a dict of sheets", "O9-sheet-none")
-                    else:
-                        out_fail("the value of a live spec is not read back equal", "O9")
+                    out_fail("the value of a live spec is not read back equal", "O9")
                 checked += 1
         finally:
             with quiet():
@@ -738,19 +683,10 @@ def run_history(ops, out, stats, do_roundtrip=False, with_model=True):
             if not silent:
                 got = []
                 oracle_step(w, op, res, snap, lambda what, item: got.append((what, item)))
-                benign = [g for g in got if g[1] == "O8-global-iface"]
-                got = [g for g in got if g[1] != "O8-global-iface"]
-                if benign and not got:
-                    failures.append((k, benign[0][0], benign[0][1], ["sanity-global-iface"]))
                 if got:
-                    if "refmode-false" in trig:
-                        # only an operation that raised in the middle of the inheritance update qualifies
-                        trig = [t for t in trig if t != "refmode-false"]
-                        if res == "err Value":
-                            trig = ["refmode-false"] + trig
                     failures.append((k, got[0][0], got[0][1], trig))
                     silent = True
-                elif [t for t in trig if t != "refmode-false"]:
+                elif trig:
                     # the trigger predicates are conservative (e.g. the op was rejected for another reason)
                     stats["trigger_without_failure"] = stats.get("trigger_without_failure", 0) + 1
         base_changed = any(o[0] in ("addbase", "rmbase") for o, r in zip(ops, impl_lines[0::2]) if r == "ok")
@@ -791,21 +727,15 @@ def run_history(ops, out, stats, do_roundtrip=False, with_model=True):
             out.disagree(ops, first_dis[0], first_dis[1], first_dis[2], layer="iospec")
         for k, t in trig_at.items():
             for name in t:
-                if name != "refmode-false":
-                    stats["trigger:" + name] = stats.get("trigger:" + name, 0) + 1
+                stats["trigger:" + name] = stats.get("trigger:" + name, 0) + 1
         # ---- attribute failures
         for (k, what, item, trig) in failures:
             key = None
-            if item == "O8-global-iface":
-                key = "C18-sanity-global-iface"     # a defect of the checker itself; no model involved
-            elif item == "O9-sheet-none":
-                key = "C18-sheet-none-readback"     # file round trip: not modelled
-            else:
-                # known only if the Lean model flags the same op with the same trigger predicate; in the
-                # inheritance stream (no model) the implementation-side recogniser alone decides
-                cands = [t for t in trig if t in model_trig.get(k, [])] if with_model else list(trig)
-                if cands:
-                    key = KEYS[cands[0]]
+            # known only if the Lean model flags the same op with the same trigger predicate; in the
+            # inheritance stream (no model) the implementation-side recogniser alone decides
+            cands = [t for t in trig if t in model_trig.get(k, [])] if with_model else list(trig)
+            if cands:
+                key = KEYS[cands[0]]
             out.fail("%s [%s]" % (what, item), ops[:k + 1],
                      detail={"oracle": item, "impl_trigger": trig, "model_trigger": model_trig.get(k, [])},
                      key=key)
